@@ -67,3 +67,10 @@ Definition plan_verdict (A : list string) (ops : list op) : nat :=
   let s := script_of A cs in
   if negb (ncmds_eqb (plan s A) cs) then 1
   else if (normal s && Nat.eqb (consumed s) (List.length A) && nodup_b (A ++ inserted s))%bool then 0 else 2.
+
+(* the names under which new rules are sent are names the model of
+   genUniqRuleNames computes for the target rules *)
+From NA Require Import Panos.Uniq.
+Definition uniq_verdict (A B : list string) (ops : list op) : bool :=
+  let names := gen_uniq A B in
+  forallb (fun c => match c with NSet n => smem n names | _ => true end) (obs_rule_cmds ops).
